@@ -637,7 +637,15 @@ def _fn_call(self, args):
     return _call_closure(self, args[0], list(tup[4]))
 
 
+def _opt_as_ref(self, args):
+    o = args[0][1] if args[0][0] == "ref" else args[0]
+    if not _is_opt(o):
+        raise Unknown("as_ref on a non-constant option")
+    return o if o[3] == "None" else _opt(True, ("ref", o[4][0]))
+
+
 STD_MODELS = {
+    "std::option::Option::<T>::as_ref": _opt_as_ref,
     "std::ops::FnMut::call_mut": _fn_call,
     "std::ops::FnOnce::call_once": _fn_call,
     "std::ops::Fn::call": _fn_call,
